@@ -160,7 +160,7 @@ CHECKS = {
     ),
     "C19": dict(
         level="exploration",
-        technique="deviation-bounded enumeration (k<=5 quick, k<=7 thorough) over 11 input axes on the real write_input, field-wise parse against independently computed fields",
+        technique="deviation-bounded enumeration (k<=4 quick, k<=7 thorough) over 11 input axes on the real write_input, field-wise parse against independently computed fields",
         text="All cases with <=2 (quick) / <=4 (thorough) deviations from the default over program, molecule, charge, spin, run type, lot, basis, title, template, atom_line callback, kwargs.",
         note="hand-typed periodic table and CODATA angstrom; ties x.5 accept both neighbours; layout parsed by tokens",
         design="DESIGN.md §2 C19",
